@@ -377,6 +377,8 @@ func runSolver(ctx context.Context, sp solverSpec, file string, timeoutS int) (s
 	default:
 		if ctx.Err() != nil || cctx.Err() != nil {
 			status = "timeout"
+		} else if strings.TrimSpace(out) == "" || strings.Contains(out, "Killed") || strings.Contains(out, "CPU time limit") {
+			status = "timeout" // stopped by the CPU-second limit of the wrapper shell before it printed an answer
 		} else if strings.Contains(out, "timeout") || strings.Contains(out, "interrupted") {
 			status = "timeout"
 		} else {
